@@ -141,6 +141,13 @@ Theorem C14_builtin_atlas_rows_exact : forall b,
   f_iw f = gpr * f_cw f /\ f_ih f = ((Z.of_nat (length (builtin_chars b)) + gpr - 1) / gpr) * f_ch f.
 Proof. exact builtin_atlas_rows. Qed.
 
+(* decoration offsets of the built-in fonts: underline 2 below the baseline, strikethrough at half height *)
+Theorem C14_builtin_decoration_offsets : forall b,
+  In b fonts ->
+  let f := bf_font b in
+  f_ul f = Deco (f_base f + 2) 1 /\ f_st f = Deco (f_ch f / 2) 1.
+Proof. exact builtin_deco_convention. Qed.
+
 Theorem C14_builtin_font_wf : forall b, In b fonts -> font_wf (bf_font b) /\ f_sp (bf_font b) = 0.
 Proof. exact builtin_font_wf. Qed.
 
